@@ -222,10 +222,25 @@ public:
                 if (res_equal(op, o.res, obs))
                     targets.push_back(o.st);
             // a call that merely *reported* something wrong (a count, a bool) may still have done what the
-            // specification says: then any outcome whose state the audit confirms will do
+            // specification says: then any outcome whose state the audit confirms will do - provided the audit
+            // really looked at every key the call addressed (an audit that skips expired-unreaped keys cannot
+            // confirm what a refused insert or erase did to such a key)
             if (targets.empty())
+            {
+                bool looked_all = true;
+                auto chk = [&](int k) {
+                    if ((size_t)k >= rows.size() || !rows[(size_t)k].looked)
+                        looked_all = false;
+                };
+                if (op.kind == INS || op.kind == ERA || op.kind == FND || op.kind == FUC)
+                    chk(op.k);
+                for (auto& it : op.items)
+                    chk(it.k);
+                if (!looked_all)
+                    return false;
                 for (auto& o : outs)
                     targets.push_back(o.st);
+            }
         }
         for (auto& tg : targets)
             if (resync_to(tg, P, pr, rows))
@@ -264,6 +279,12 @@ public:
                 e.why = W_EVICTED;
             }
         }
+        // keys the audit skipped because they were expired-unreaped may still occupy a slot, whatever the adopted outcome
+        // assumed about them (e.g. a clean_expired_values that reported the wrong count may not have removed them all)
+        if (model.ttllru())
+            for (size_t k = 0; k < rows.size() && k < target.k.size(); ++k)
+                if (!rows[k].looked && P.k[k].st == EXPU && target.k[k].st == ABSENT && target.k[k].why == W_EXPIRED)
+                    target.k[k].st = EXPU;
         int live = target.live();
         if (!model.ttl())
         {
@@ -492,13 +513,16 @@ private:
     bool belief_pinned(int k) const { return !kind_has_capacity(model.cfg.kind) || sighted(k); }
     // ... but "this key has no live entry because it was never written / was erased / was cleared / its deadline has
     // passed" is a fact (it follows from observed results and the clock); only "live" and "evicted" are beliefs.
-    bool belief_pinned(int k, const State& P) const
+    // 'needs_residency': the expected result depends on whether an expired entry still occupies a slot (update-only
+    // insert, erase) - that, too, is only a belief unless sighted.
+    bool belief_pinned(int k, const State& P, bool needs_residency) const
     {
         if (belief_pinned(k))
             return true;
         const KS& e = P.k[(size_t)k];
-        if (e.st == EXPU)
-            return true;
+        bool expired = e.st == EXPU || (e.st == ABSENT && e.why == W_EXPIRED);
+        if (expired)
+            return !needs_residency;
         return e.st == ABSENT && e.why != W_EVICTED;
     }
     bool all_pinned() const
@@ -561,8 +585,16 @@ private:
         {
             if (e.st == EXPU || e.why == W_EXPIRED)
             {
-                t.insert("C04.stale");
-                t.insert("C01.expired"); // C01: a value is reported only if the write has not since been undone by expiry
+                if (e.inferred)
+                {
+                    // the deadline comes from a range element whose acceptance nobody observed (an unconfirmed inference)
+                    t.insert("UNATTRIBUTED.range-value");
+                }
+                else
+                {
+                    t.insert("C04.stale");
+                    t.insert("C01.expired"); // C01: a value is reported only if the write has not since been undone by expiry
+                }
                 d += std::string(where) + ": key " + std::to_string(k) + " returned after its deadline; ";
             }
             else
@@ -643,7 +675,7 @@ private:
         {
             bool pinned = true;
             if (op.kind == INS || op.kind == ERA)
-                pinned = belief_pinned(op.k, P);
+                pinned = belief_pinned(op.k, P, op.kind == ERA || op.allow == A_UPDATE);
             else if (op.kind == INSR || op.kind == INSI || op.kind == ERAR || op.kind == ERAI || op.kind == AGE || op.kind == CLEAN)
                 pinned = all_pinned();
             if (!pinned)
@@ -1003,6 +1035,11 @@ private:
                     else if (pe.st == LIVE)
                     {
                         // expected to have been evicted by this op: the policy clause below decides
+                    }
+                    else if (op.kind == INS && obs.b && (int)k == op.k && *row.val == (c.kind == UTSET ? SET_MEMBER : op.v))
+                    {
+                        // the call itself reported success and the key holds exactly what it wrote: consistent with the
+                        // observed result (whose mismatch with the specification is judged above), not a stale entry
                     }
                     else
                         lookup_tags(P, (int)k, row.val, row.cnt, false, 0, t, d, "audit");
